@@ -74,7 +74,9 @@ C03_AfterFinish(r) == r.scn.fault = "term_after_finish" =>
 \* ---------------- C06 (persistent) ----------------
 Expected(r) == [k \in 1..r.scn.items |-> k]
 C06_Prefix(r) == Pers(r) => IsPrefix(r.obs.stream.got, Expected(r))
-C06_Ends(r) == (Pers(r) /\ Dead(r)) => r.obs.stream.end = "ended" /\ r.obs.stream.again = "Empty"
+\* "after death": observed through the API, or a fact (the harness itself SIGKILLed the child process)
+KilledForReal(r) == r.scn.landed = "T" /\ r.scn.fault \in {"sigkill", "fpause"}
+C06_Ends(r) == (Pers(r) /\ (Dead(r) \/ KilledForReal(r))) => r.obs.stream.end = "ended" /\ r.obs.stream.again = "Empty"
 \* undisturbed: everything enqueued is delivered
 C06_All(r) == (Pers(r) /\ Dead(r) /\ r.scn.landed = "F" /\ r.scn.ending = "ret") => r.obs.stream.got = Expected(r)
 
